@@ -23,7 +23,12 @@
                   option has a built-in default)
      applies    : subset of Src the option is declared to read ("cli" and
                   "default" always; "env"/"file" only for options declared with
-                  config metadata / a config section)
+                  config metadata / a config section; the section is the one
+                  of the class that INTRODUCES the option: a subclass that
+                  redeclares it keeps env / S.<name> unless the redeclaration
+                  itself names another section or hides the option -- "the
+                  matching key" is the key the template prints for that
+                  option name, Q4 read from the command's side)
      val        : [cli, env, file, default |-> Int]
                     n > 0   id of the (valid) value held by that source
                     0       the source holds a value the option's type rejects
